@@ -22,7 +22,7 @@ From LV Require Import Base.Bytes Base.Sx Model.Obj Model.DocQ Gen.Crypto
   Spec.Crypto.Iso Spec.Crypto.IsoConcrete
   Proofs.CryptoProofs Proofs.CryptoProofsFilter Proofs.CryptoProofsObject Proofs.IsoProofs Proofs.IsoProofsData
   Proofs.CryptoProofsDoc Proofs.IsoProofsObj Proofs.IsoProofsFilter Proofs.IsoProofsAuth Proofs.IsoProofsDoc Proofs.IsoProofsRT
-  Proofs.IsoProofsDoc2 Proofs.IsoProofsPerms Proofs.IsoProofsExamples Proofs.CryptoProofsAES.
+  Proofs.IsoProofsDoc2 Proofs.IsoProofsPerms Proofs.IsoProofsDoc6 Proofs.IsoProofsExamples Proofs.CryptoProofsAES.
 Local Open Scope N_scope.
 
 (* ---------------- rung 1: constants and formulations ---------------- *)
@@ -416,6 +416,67 @@ Theorem C06_lopdf_encrypt_iso_decrypt_user_r4_concrete : forall d id0 v rnd ivs 
   open_document iconcrete d1 (v_user v) = Opened (plain_again d st) (es_key st).
 Proof. exact (lopdf_encrypt_iso_decrypt_user_r4 concrete md5_length concrete_aes_ok). Qed.
 
+(* ---------------- rung 4: whole documents, revisions 5 and 6 (direction standard -> lopdf) ---------------- *)
+(* Under the laws of the primitives -- AES decryption inverts encryption (aes_ok: a theorem for the Gallina AES), the
+   SHA-2 functions return 32 / 48 / 64 bytes --: *)
+(* the standard's own consistency: what Algorithms 8, 9, 10 make, Algorithm 2.A (with 12, 11, 13) opens with the owner
+   password and with the user password, and retrieves the file encryption key *)
+Theorem C06_iso_open_owner_r6 : forall P, aes_ok P ->
+  (forall m, length (p_sha256 P m) = 32%nat) -> (forall m, length (p_sha384 P m) = 48%nat) ->
+  (forall m, length (p_sha512 P m) = 64%nat) ->
+  forall R fek user owner ru ro rp Pz em, length fek = 32%nat -> conforming_P Pz = true ->
+  let I := iprims_of P in
+  let Uv := fst (alg8 I R fek user ru) in let UE := snd (alg8 I R fek user ru) in
+  let Ov := fst (alg9 I R fek owner Uv ro) in let OE := snd (alg9 I R fek owner Uv ro) in
+  alg2A I R Ov Uv OE UE (alg10 I Pz em fek rp) Pz owner = Some fek.
+Proof. exact open_owner_r6. Qed.
+
+Theorem C06_iso_open_user_r6 : forall P, aes_ok P ->
+  (forall m, length (p_sha256 P m) = 32%nat) -> (forall m, length (p_sha384 P m) = 48%nat) ->
+  (forall m, length (p_sha512 P m) = 64%nat) ->
+  forall R fek user owner ru ro rp Pz em, length fek = 32%nat -> conforming_P Pz = true ->
+  let I := iprims_of P in
+  let Uv := fst (alg8 I R fek user ru) in let UE := snd (alg8 I R fek user ru) in
+  let Ov := fst (alg9 I R fek owner Uv ro) in let OE := snd (alg9 I R fek owner Uv ro) in
+  alg12 I R Ov Uv user = false ->
+  alg2A I R Ov Uv OE UE (alg10 I Pz em fek rp) Pz user = Some fek.
+Proof. exact open_user_r6. Qed.
+
+(* lopdf opens what ANY conforming writer of revision 5 / 6 wrote (V 5; O, U of 48, OE, UE of 32, Perms of 16 bytes;
+   AESV2 / AESV3 / None crypt filters, EFF, EncryptMetadata; dictionary indirect or direct), for every password for
+   which the standard's Algorithm 2.A retrieves the key the objects were encrypted with *)
+Theorem C06_lopdf_opens_r6 : forall P, (forall m, length (p_md5 P m) = 16%nat) ->
+  forall ip fek eid d ivs pw,
+  aes_ok P -> shape_r6 ip -> lengths_r6 ip -> cf_ok ip -> conforming_P (ip_P ip) = true ->
+  doc_ok ip d eid -> length fek = 32%nat ->
+  open_r6 P ip pw = Some fek ->
+  nth 8 (p_aes_dec P fek (ip_Perms ip)) x00 = (if ip_EncryptMetadata ip then "T"%byte else "F"%byte) ->
+  doc_decrypt_raw P (enc_doc ip (fst (Iso.encrypt_objects (iprims_of P) ip fek (d_objects d) ivs)) eid d) pw =
+  DOk (opened_doc d eid (st_of ip fek)) (st_of ip fek).
+Proof. exact lopdf_opens_r6. Qed.
+
+(* the interoperability statement, direction standard -> lopdf, revisions 5 and 6: owner password ... *)
+Theorem C06_iso_encrypt_lopdf_decrypt_owner_r6 : forall P, (forall m, length (p_md5 P m) = 16%nat) -> aes_ok P ->
+  (forall m, length (p_sha256 P m) = 32%nat) -> (forall m, length (p_sha384 P m) = 48%nat) ->
+  (forall m, length (p_sha512 P m) = 64%nat) ->
+  forall rq eid rnd ivs d, request_ok_r6 rq -> doc_ok (rq_core rq) d eid ->
+  doc_decrypt P (encrypt_document (iprims_of P) rq eid rnd ivs d) (owner_r6 rq) =
+  DOk (opened_doc d eid (st_of (ip_r6 P rq rnd) (rq_fek rq))) (st_of (ip_r6 P rq rnd) (rq_fek rq)).
+Proof. exact iso_encrypt_lopdf_decrypt_owner_r6. Qed.
+
+(* ... and user password (one that Algorithm 12 does not take for the owner password) *)
+Theorem C06_iso_encrypt_lopdf_decrypt_user_r6 : forall P, (forall m, length (p_md5 P m) = 16%nat) -> aes_ok P ->
+  (forall m, length (p_sha256 P m) = 32%nat) -> (forall m, length (p_sha384 P m) = 48%nat) ->
+  (forall m, length (p_sha512 P m) = 64%nat) ->
+  forall rq eid rnd ivs d, request_ok_r6 rq -> doc_ok (rq_core rq) d eid ->
+  alg12 (iprims_of P) (rq_R rq) (ip_O (ip_r6 P rq rnd)) (ip_U (ip_r6 P rq rnd)) (rq_user rq) = false ->
+  doc_decrypt P (encrypt_document (iprims_of P) rq eid rnd ivs d) (rq_user rq) =
+  DOk (opened_doc d eid (st_of (ip_r6 P rq rnd) (rq_fek rq))) (st_of (ip_r6 P rq rnd) (rq_fek rq)).
+Proof. exact iso_encrypt_lopdf_decrypt_user_r6. Qed.
+
+Theorem C06_example_request_ok_r6 : request_ok_r6 ex_rq_v5 /\ doc_ok (rq_core ex_rq_v5) ex_doc (Some (5, 0)).
+Proof. exact ex_request_ok_v5. Qed.
+
 (* ---------------- non-vacuity and computed whole-document instances ---------------- *)
 Theorem C06_example_matches_r4 : matches_r4 ex_palg 3 128 (zeros 32) (zeros 32) (-1340) true.
 Proof. exact ex_matches_r4. Qed.
@@ -523,6 +584,12 @@ Print Assumptions C06_iso_norm_exact.
 Print Assumptions C06_example_version_ok.
 Print Assumptions C06_iso_encrypt_lopdf_decrypt_user_r4_concrete.
 Print Assumptions C06_lopdf_encrypt_iso_decrypt_user_r4_concrete.
+Print Assumptions C06_iso_open_owner_r6.
+Print Assumptions C06_iso_open_user_r6.
+Print Assumptions C06_lopdf_opens_r6.
+Print Assumptions C06_iso_encrypt_lopdf_decrypt_owner_r6.
+Print Assumptions C06_iso_encrypt_lopdf_decrypt_user_r6.
+Print Assumptions C06_example_request_ok_r6.
 Print Assumptions C06_example_matches_r4.
 Print Assumptions C06_example_state_matches.
 Print Assumptions C06_example_iso_encrypt_lopdf_decrypt.
